@@ -334,14 +334,18 @@ impl Node {
     /// Wait until the artifact task spawned by the last tick (if any) has finished. C14/C16 keep the schedule of
     /// that background task out of the domain (C15 interrupts it on purpose).
     pub async fn settle(&self) -> bool {
-        for i in 0..4000u32 {
+        // fixed number of polls, not a deadline of the property: a run whose task has not settled after them (about a
+        // minute on an idle machine, an overloaded one may need it) is never judged on artifacts, see c15.rs
+        for i in 0..10_000u32 {
             if !self.deps.signed_entity_type_lock.has_locked_entities().await {
                 return true;
             }
             if i < 50 {
                 tokio::task::yield_now().await;
-            } else {
+            } else if i < 4000 {
                 tokio::time::sleep(Duration::from_millis(1)).await;
+            } else {
+                tokio::time::sleep(Duration::from_millis(10)).await;
             }
         }
         false
